@@ -73,3 +73,11 @@ reg("C06", "model_checking",
     "used by at most one call in progress, every result equal to the sequential result; supplemented by free-running goroutines under the race detector",
     "Data-race freedom proper is observed, not proved. 12 representative patterns x 6 APIs; 2-3 goroutines.",
     "TLA+ protocol model; TLC-generated schedules replayed with scheduler gates; trace validation; race detector", "DESIGN.md §6 C06")
+
+reg("C20", "model_checking",
+    "TLC checks the byte-accounted cache protocol (usage <= capacity + one state, clears bounded, a full cache is always resolved), the Pool model with one "
+    "goroutine and the visited-table model; executions of the real code recorded through hooks H-dfa / H-pool / H-bt (105 caches from 300 bytes to the "
+    "default over a fixed corpus with MemoryUsage probes, single-goroutine histories with a GC, a generation overflow) are validated against the trace "
+    "specifications; the documented zero-allocation calls are measured with AllocsPerRun and post-GC heap on a build without instrumentation",
+    "Memory is measured in the library's own accounting (MemoryUsage) and by the Go runtime (AllocsPerRun, HeapAlloc after GC).",
+    "TLA+ protocol models + trace validation of recorded executions + allocation measurement", "DESIGN.md §6 C20")
